@@ -16,7 +16,8 @@
 (* Numbers are wrapping-free: to + 1 never reaches 2^32 (the harness adds  *)
 (* an offset close to 2^32 to a model over small numbers to test that).    *)
 (***************************************************************************)
-EXTENDS Integers, Sequences, FiniteSets, TLC, SequencesExt
+EXTENDS Integers, Sequences, FiniteSets, TLC
+LOCAL SX == INSTANCE SequencesExt
 
 CONSTANT MaxAckSet        \* 50 in acks.go
 
@@ -29,27 +30,32 @@ To(r)   == r[2]
 ---------------------------------------------------------------------------
 (* AddAckRange, concrete level *)
 
-(* the loop "for a.firstRange != nil && a.firstRange.ackFrom <= a.ackPrefix" *)
-RECURSIVE Absorb(_, _)
-Absorb(p, rs) == IF rs # <<>> /\ From(rs[1]) <= p
-                 THEN Absorb(Max(p, To(rs[1]) + 1), Tail(rs))
-                 ELSE <<p, rs>>
+(* The linked list is the sequence rs; pointers into it are indices (nil = Len(rs) + 1
+   for tmpRange / firstRange, 0 for prevRange), so that TLC never copies tails. *)
 
-(* the list walk: done = nodes before prevRange inclusive, rest = tmpRange... *)
-RECURSIVE Walk(_, _, _, _)
-Walk(done, rest, f, t) ==
-  IF rest = <<>> \/ t + 1 < From(rest[1])
-    THEN done \o <<<<f, t>>>> \o rest                         \* new node before tmpRange
-  ELSE IF To(rest[1]) + 1 < f
-    THEN Walk(Append(done, rest[1]), Tail(rest), f, t)        \* tmpRange is entirely below
-  ELSE IF Len(rest) = 1 \/ t + 1 < From(rest[2])
-    THEN done \o <<<<Min(From(rest[1]), f), Max(To(rest[1]), t)>>>> \o Tail(rest)   \* widen tmpRange
-  ELSE Walk(done, Tail(rest), Min(From(rest[1]), f), t)       \* unlink tmpRange, carry its from
+(* the loop "for a.firstRange != nil && a.firstRange.ackFrom <= a.ackPrefix":
+   i = firstRange, p = ackPrefix *)
+RECURSIVE Absorb(_, _, _)
+Absorb(p, rs, i) == IF i <= Len(rs) /\ From(rs[i]) <= p
+                    THEN Absorb(Max(p, To(rs[i]) + 1), rs, i + 1)
+                    ELSE <<p, SubSeq(rs, i, Len(rs))>>
+
+(* the list walk: j = prevRange, i = tmpRange, f = (possibly lowered) ackFrom.
+   Nodes j+1 .. i-1 have been unlinked. *)
+RECURSIVE Walk(_, _, _, _, _)
+Walk(rs, j, i, f, t) ==
+  IF i > Len(rs) \/ t + 1 < From(rs[i])
+    THEN SubSeq(rs, 1, j) \o <<<<f, t>>>> \o SubSeq(rs, i, Len(rs))        \* new node between prev and tmp
+  ELSE IF To(rs[i]) + 1 < f
+    THEN Walk(rs, i, i + 1, f, t)                                          \* tmpRange is entirely below
+  ELSE IF i = Len(rs) \/ t + 1 < From(rs[i + 1])
+    THEN SubSeq(rs, 1, j) \o <<<<Min(From(rs[i]), f), Max(To(rs[i]), t)>>>> \o SubSeq(rs, i + 1, Len(rs))   \* widen tmpRange
+  ELSE Walk(rs, j, i + 1, Min(From(rs[i]), f), t)                          \* unlink tmpRange, carry its from
 
 AddRange(p, rs, f, t) ==        \* <<prefix', ranges'>>
-  IF f <= p THEN Absorb(Max(p, t + 1), rs)
+  IF f <= p THEN Absorb(Max(p, t + 1), rs, 1)
   ELSE IF rs = <<>> THEN <<p, <<<<f, t>>>>>>
-  ELSE <<p, Walk(<<>>, rs, f, t)>>
+  ELSE <<p, Walk(rs, 0, 1, f, t)>>
 
 ---------------------------------------------------------------------------
 (* representation invariant and refinement mapping *)
@@ -64,20 +70,20 @@ Denote(p, rs) == (0..(p - 1)) \cup UNION {From(rs[i])..To(rs[i]) : i \in 1..Len(
 CanonPrefix(S) == CHOOSE p \in 0..(Cardinality(S)) : p \notin S /\ \A q \in 0..(p - 1) : q \in S
 CanonRanges(S) ==
   LET p  == CanonPrefix(S)
-      st == SetToSortSeq({x \in S : x > p /\ (x - 1) \notin S}, <)     \* first numbers of the runs
-      en == SetToSortSeq({x \in S : x > p /\ (x + 1) \notin S}, <)     \* last numbers of the runs
+      st == SX!SetToSortSeq({x \in S : x > p /\ (x - 1) \notin S}, <)     \* first numbers of the runs
+      en == SX!SetToSortSeq({x \in S : x > p /\ (x + 1) \notin S}, <)     \* last numbers of the runs
   IN [i \in 1..Len(st) |-> <<st[i], en[i]>>]
 
 ---------------------------------------------------------------------------
 (* headers *)
 HaveHoles(rs) == rs # <<>>
 
-(* numbers of the ranges rs, in order, cut off after n of them *)
-RECURSIVE Flatten(_, _)
-Flatten(rs, n) ==
-  IF rs = <<>> \/ n <= 0 THEN <<>>
-  ELSE LET w == Min(To(rs[1]) - From(rs[1]) + 1, n) IN
-       [i \in 1..w |-> From(rs[1]) + i - 1] \o Flatten(Tail(rs), n - w)
+(* numbers of the ranges rs[i..], in order, cut off after n of them *)
+RECURSIVE Flatten(_, _, _)
+Flatten(rs, i, n) ==
+  IF i > Len(rs) \/ n <= 0 THEN <<>>
+  ELSE LET w == Min(To(rs[i]) - From(rs[i]) + 1, n) IN
+       [k \in 1..w |-> From(rs[i]) + k - 1] \o Flatten(rs, i + 1, n - w)
 
 (* BuildAck on a fresh EncHeader *)
 BuildAck(p, rs) ==
@@ -87,7 +93,7 @@ BuildAck(p, rs) ==
    from      |-> IF HaveHoles(rs) THEN From(rs[1]) ELSE 0,
    to        |-> IF HaveHoles(rs) THEN To(rs[1]) ELSE 0,
    hasSet    |-> HaveHoles(rs) /\ Len(rs) > 1,
-   set       |-> IF HaveHoles(rs) THEN Flatten(Tail(rs), MaxAckSet) ELSE <<>>]
+   set       |-> IF HaveHoles(rs) THEN Flatten(rs, 2, MaxAckSet) ELSE <<>>]
 
 (* BuildNegativeAck on a fresh ResendRequest: the holes, at most MaxAckSet of them *)
 BuildNack(p, rs) ==
